@@ -461,7 +461,12 @@ func (loader *Loader) resolveComponent(doc *T, ref string, path *url.URL, resolv
 			return nil, nil, err
 		}
 		var err2 error
-		data, err2 := loader.readURL(path)
+		// the raw data to search is the file the reference names, not the file that holds the reference
+		rawPath := path
+		if !internalRef && componentPath != nil {
+			rawPath = componentPath
+		}
+		data, err2 := loader.readURL(rawPath)
 		if err2 != nil {
 			return nil, nil, err
 		}
